@@ -673,9 +673,12 @@ structure T where
   verdict : Bool      -- the tick has tested the group and found it empty; stopReplicator not yet run
   stopped : Bool
   late : Bool         -- ghost: an append landed after the last emptiness test that found the group empty, before its stopReplicator
+  hs : Bool := false  -- the last request was lost: the channel is in `failure`, the next loop iteration starts with the handshake,
+                      -- which rewinds the consumed sequence to the follower's appended index (= the acknowledged one: one follower,
+                      -- requests are lost before they reach it)
   deriving DecidableEq, Repr
 
-def T.init : T := { app := -1, cons := -1, gack := -1, infl := none, verdict := false, stopped := false, late := false }
+def T.init : T := { app := -1, cons := -1, gack := -1, infl := none, verdict := false, stopped := false, late := false, hs := false }
 
 inductive Step | append | consume | ack | lose | test | stop
   deriving DecidableEq, Repr
@@ -683,12 +686,19 @@ inductive Step | append | consume | ack | lose | test | stop
 def step (emptyByAck : Bool) (t : T) : Step → T
   | .append => { t with app := t.app + 1, late := t.late || t.verdict }
   | .consume =>
-    if t.stopped = false ∧ t.infl = none ∧ t.cons < t.app then { t with cons := t.cons + 1, infl := some (t.cons + 1) } else t
+    -- IsReady's handshake after a lost request: ResetReplicaIndex(follower's next index)
+    let c := if t.hs then t.gack else t.cons
+    if t.stopped = false ∧ t.infl = none then
+      (if c < t.app then { t with cons := c + 1, infl := some (c + 1), hs := false } else { t with cons := c, hs := false })
+    else t
   | .ack =>
     match t.infl with
     | some i => if t.stopped = false then { t with gack := i, infl := none } else t
     | none => t
-  | .lose => { t with infl := none }     -- send / receive failed: consumed, never acknowledged
+  | .lose =>                              -- the request is lost (Send fails): consumed, never acknowledged; state := failure
+    match t.infl with
+    | some _ => { t with infl := none, hs := true }
+    | none => t
   | .test =>
     if t.stopped = false ∧ t.verdict = false then
       { t with verdict := if emptyByAck then decide (t.app ≤ t.gack) else decide (t.app ≤ t.cons), late := false }
